@@ -129,6 +129,7 @@ def rules_for(pid):
             ("H-next-forward", lambda c: ROPS.forward_rule(c.P, c.E, c.H), 8),
             ("SUB-inputs", lambda c: RX.sub_inputs(c.P, c.E, c.H), 40),
             ("ARITY", lambda c: RAR.arity_rule(c.P, c.E, c.H), 3),
+            ("COMPLETE-KIND", lambda c: ROPS.complete_kind_rule(c.P, c.E, c.H), 8),
         ],
         "C04": [
             ("H-error", lambda c: RH.h_error(c.P, c.E, c.H), 26),
@@ -162,6 +163,7 @@ def rules_for(pid):
             ("CLONE-SHARES", _xclone(2, "observer::", "subscription::"), 2),
             ("F-slot-truth", lambda c: RO.f_slot_truth(c.P, c.E), 4),
             ("Q", lambda c: RQ.q_rules(c.P, c.E), 10),
+            ("HOOK-STORE", lambda c: RO.hook_store(c.P, c.E, ("observer::", "internals::stream_controller::")), 2),
         ],
         "C06": [
             ("H-early-stop", lambda c: RH.h_early_stop(c.P, c.E, c.H), 24),
@@ -180,6 +182,7 @@ def rules_for(pid):
             # a subscription that ends before the scheduler ran the subscribing task must still reach the scheduler (abort wired
             # before anything is posted): otherwise the queued task subscribes the source for a subscriber that has left
             ("T1", lambda c: RS.t1_abort_wired(c.P, c.E), 3),
+            ("HOOK-STORE", lambda c: RO.hook_store(c.P, c.E, ("observer::", "internals::stream_controller::")), 2),
         ],
         "C07": [
             ("L1", lambda c: RL.l1_reentrancy(c.P, c.E, c.H), 19),
@@ -243,6 +246,7 @@ def rules_for(pid):
             ("SUBJ", lambda c: ROPS.subjects_rule(c.P, c.E, c.H), 8),
             ("L1-subjects", lambda c: _only_subjects(RL.l1_reentrancy(c.P, c.E, c.H)), 1),
             ("INIT", lambda c: RX.init_rule(c.P, c.E, ("subjects::",)), 2),
+            ("HOOK-STORE", lambda c: RO.hook_store(c.P, c.E, ("observer::",)), 1),
         ],
         "C11": [
             ("D", lambda c: RJ.d_rules(c.P, c.E, c.H), 3),
@@ -253,6 +257,7 @@ def rules_for(pid):
             # "exactly one complete": every input's completion must reach the remove-and-test (or start the successor)
             ("H-complete", lambda c: RH.h_complete(c.P, c.E, c.H, scope_c11), 5),
             ("ARITY", lambda c: RAR.arity_rule(c.P, c.E, c.H), 3),
+            ("COMPLETE-KIND", lambda c: ROPS.complete_kind_rule(c.P, c.E, c.H), 8),
         ],
         "C12": [
             ("J", lambda c: _only(RJ.j_rules(c.P, c.E), ("J1", "J2", "J3", "J6", "J7")), 5),
@@ -272,6 +277,7 @@ def rules_for(pid):
             # the count-down hooks of ref_count/replay hear of a leaving subscriber only through Subscription::unsubscribe
             ("SUB", lambda c: RO.sub_rules(c.P, c.E), 3),
             ("INIT", lambda c: RX.init_rule(c.P, c.E, ("operators::ref_count::", "operators::replay::")), 2),
+            ("HOOK-STORE", lambda c: RO.hook_store(c.P, c.E, ("subjects::subject::",)), 2),
         ],
         "C15": [
             ("T1", lambda c: RS.t1_abort_wired(c.P, c.E), 3),
@@ -283,6 +289,7 @@ def rules_for(pid):
             ("X-blocking-acq", _xacq("schedulers::"), 4),
             ("S-wiring", lambda c: RO.s_wiring(c.P, c.E), 3),
             ("INIT", lambda c: RX.init_rule(c.P, c.E, ("schedulers::", "internals::stream_controller::")), 2),
+            ("HOOK-STORE", lambda c: RO.hook_store(c.P, c.E, ("internals::stream_controller::",)), 1),
         ],
         "C19": [
             ("A19b", lambda c: RJ.a19b(c.P, c.E), 3),
